@@ -14,6 +14,7 @@ import (
 	sql "github.com/rqlite/rqlite/v10/db"
 	"github.com/rqlite/rqlite/v10/internal/fsutil"
 	"github.com/rqlite/rqlite/v10/internal/random"
+	"github.com/rqlite/rqlite/v10/internal/vhook"
 	"github.com/rqlite/rqlite/v10/snapshot"
 	rlog "github.com/rqlite/rqlite/v10/store/log"
 )
@@ -241,6 +242,7 @@ func RecoverNode(dataDir string, extensions []string, logger *log.Logger, logs r
 		}
 		if entry.Type == raft.LogCommand {
 			cmdProc.Process(entry.Data, db)
+			vhook.Trace("recover", "recover.apply", "idx", entry.Index, "term", entry.Term)
 		}
 		lastIndex = entry.Index
 		lastTerm = entry.Term
